@@ -168,7 +168,8 @@ func newPluginContainer() *PluginContainer {
 
 func (p *PluginContainer) cloneAndAppendMiddle(plugins ...Plugin) *PluginContainer {
 	middle := newPluginSingleContainer()
-	middle.plugins = append(p.middle.GetAll(), plugins...)
+	// copy: appending to the parent's slice in place would let sibling containers share a backing array
+	middle.plugins = append(append(make([]Plugin, 0, len(p.middle.plugins)+len(plugins)), p.middle.plugins...), plugins...)
 
 	newPluginContainer := newPluginContainer()
 	newPluginContainer.middle = middle
@@ -179,7 +180,8 @@ func (p *PluginContainer) cloneAndAppendMiddle(plugins ...Plugin) *PluginContain
 	oldRefreshTree := p.refreshTree
 	p.refreshTree = func() {
 		oldRefreshTree()
-		newPluginContainer.refresh()
+		// the whole subtree: the child may have children of its own by now
+		newPluginContainer.refreshTree()
 	}
 	return newPluginContainer
 }
